@@ -1,6 +1,7 @@
 package main
 
 import (
+	"encoding/binary"
 	"bytes"
 	"fmt"
 	"io"
@@ -37,6 +38,7 @@ type wCfg struct {
 	Stats   string `json:"stats"`
 	Bloom   string `json:"bloom,omitempty"` // "" | "on" | "deferred"
 	Sort    string `json:"sort,omitempty"`  // "" | "declared": sorting columns recorded in the file
+	Pool    string `json:"pool,omitempty"`  // "" | "chunk64" | "file": where the column pages are staged
 }
 
 type c01Scenario struct {
@@ -45,6 +47,12 @@ type c01Scenario struct {
 	Cfg  wCfg   `json:"cfg"`
 	Ops  []wOp  `json:"ops"`
 	API  string `json:"api,omitempty"`
+	// Scale k > 1: every write of n rows becomes n*k rows, the row-group limit k times larger, and the ids come
+	// from the bulk id space (wBulk), whose rows hold high-cardinality values: large dictionaries, many pages
+	Scale int `json:"scale,omitempty"`
+	// Poison: memory going back to the library's pools is overwritten with 0xA5 (hook), so anything that
+	// still refers to it sees other bytes
+	Poison bool `json:"poison,omitempty"`
 }
 
 // ------------------------------------------------------------------ row type
@@ -68,6 +76,8 @@ type wRow struct {
 	Bytes []byte           `parquet:"bytes"`
 	U     [16]byte         `parquet:"u,uuid"`
 	F5    [5]byte          `parquet:"f5,dict"`
+	F8    [8]byte          `parquet:"f8,dict"`
+	G8    [8]byte          `parquet:"g8,dict"` // draws from the same values as f8, in another order
 	OptI  *int64           `parquet:"opti"`
 	OptS  *string          `parquet:"opts,dict"`
 	OptF  float64          `parquet:"optf,optional"`
@@ -95,6 +105,21 @@ var (
 
 func pick[T any](r *rng, s []T) T { return s[r.intn(len(s))] }
 
+// wBulk: ids from here on stand for rows with high-cardinality values
+const wBulk = 100000
+
+func wMix(x uint64) uint64 {
+	x ^= x >> 33
+	x *= 0xff51afd7ed558ccd
+	x ^= x >> 33
+	x *= 0xc4ceb9fe1a85ec53
+	return x ^ x>>33
+}
+func wKey8(k uint64) (b [8]byte) {
+	binary.BigEndian.PutUint64(b[:], wMix(k))
+	return b
+}
+
 // wRowOf: the row written for id under a seed; a pure function so that the
 // reader side can regenerate the expected value.
 func wRowOf(id int, seed uint64) wRow {
@@ -120,6 +145,26 @@ func wRowOf(id int, seed uint64) wRow {
 		row.U = [16]byte{byte(r.intn(3)), 1, 2, 3, 4, 5, 6, 7, 8, 9, 10, 11, 12, 13, 14, 0xFF}
 	}
 	row.F5 = [5]byte{byte('A' + r.intn(4)), 'x', 0, 0xFF, byte(r.intn(2))}
+	row.F8 = [8]byte{byte(r.intn(3)), 8}
+	row.G8 = [8]byte{byte(r.intn(3)), 8}
+	if id >= wBulk {
+		// (almost) every row its own value; f8 and g8 share one population of keys
+		h := wMix(uint64(id) + seed<<20)
+		row.I64 = int64(h)
+		row.U64 = h >> 7
+		row.S = "s-" + strconv.FormatUint(h, 36)
+		row.SD = "d-" + strconv.FormatUint(h%5000, 36)
+		k := wKey8(h % 7000)
+		copy(row.F5[:], k[:5])
+		row.F8 = wKey8(uint64(id-wBulk) % 6000)
+		row.G8 = wKey8(uint64(id-wBulk+2500) % 6000)
+		if id-wBulk >= 5000 && id%211 == 0 {
+			// the byte pattern recycled pool memory is overwritten with, as a value
+			row.F8 = [8]byte{0xA5, 0xA5, 0xA5, 0xA5, 0xA5, 0xA5, 0xA5, 0xA5}
+			row.F5 = [5]byte{0xA5, 0xA5, 0xA5, 0xA5, 0xA5}
+		}
+		copy(row.U[:], k[:])
+	}
 	if r.intn(3) > 0 {
 		x := pick(r, wI64s)
 		row.OptI = &x
@@ -174,7 +219,7 @@ func wSame(a, b wRow) int {
 	checks := []bool{
 		a.ID == b.ID, a.B == b.B, a.I32 == b.I32, a.U32 == b.U32, a.I64 == b.I64, a.U64 == b.U64,
 		math.Float32bits(a.F32) == math.Float32bits(b.F32), f64(a.F64, b.F64),
-		a.S == b.S, a.SD == b.SD, bytes.Equal(a.Bytes, b.Bytes), a.U == b.U && a.F5 == b.F5,
+		a.S == b.S, a.SD == b.SD, bytes.Equal(a.Bytes, b.Bytes), a.U == b.U && a.F5 == b.F5 && a.F8 == b.F8 && a.G8 == b.G8,
 		(a.OptI == nil) == (b.OptI == nil) && (a.OptI == nil || *a.OptI == *b.OptI),
 		(a.OptS == nil) == (b.OptS == nil) && (a.OptS == nil || *a.OptS == *b.OptS),
 		f64(a.OptF, b.OptF),
@@ -280,6 +325,12 @@ func wOptions(c wCfg, r *rng) []parquet.WriterOption {
 		if c.Bloom == "deferred" {
 			opts = append(opts, parquet.DeferBloomFiltersWithBuffers(parquet.NewBufferPool()))
 		}
+	}
+	switch c.Pool {
+	case "chunk64":
+		opts = append(opts, parquet.ColumnPageBuffers(parquet.NewChunkBufferPool(64)))
+	case "file":
+		opts = append(opts, parquet.ColumnPageBuffers(parquet.NewFileBufferPool(scratchDir(), "vh-pages-*")))
 	}
 	if c.Sort == "declared" {
 		// ids are written in increasing order, so the declaration is truthful
@@ -537,12 +588,21 @@ func c01Main(args []string) error {
 		buf := new(bytes.Buffer)
 		var w wWriter
 		var opts []parquet.WriterOption
+		next := 0
+		ops := sc.Ops
+		if sc.Scale > 1 {
+			sc.Cfg.MaxRows *= sc.Scale
+			ops = append([]wOp{}, ops...)
+			for i := range ops {
+				ops[i].N *= sc.Scale
+			}
+			next = wBulk
+		}
+		parquet.VerifSetPoison(sc.Poison)
 		if pan, msg := guard(func() { opts = wOptions(sc.Cfg, r); w = wNew(api, buf, opts) }); pan {
 			return fmt.Errorf("scenario %d: cannot construct writer: %s", sc.ID, msg)
 		}
-		tr.begin(ev{"sc": sc.ID, "cfg": sc.Cfg, "api": api})
-		next := 0
-		ops := sc.Ops
+		tr.begin(ev{"sc": sc.ID, "cfg": sc.Cfg, "api": api, "scale": sc.Scale, "poison": b2i(sc.Poison)})
 		if len(ops) == 0 || ops[len(ops)-1].Op != "close" {
 			ops = append(append([]wOp{}, ops...), wOp{Op: "close"})
 		}
